@@ -2,6 +2,7 @@
    witness (open finding D10) that the unrestricted statement is false of the model. *)
 Require Import Tac ListN Attrs Cell Row Grid Screen Vte Perform Parser Term Emit.
 Require Import GridInv ScreenInv ParseSer CellWf WfInv SgrSpec EmitSafe AttrsInv EmitTokens ObsSpec.
+Require Import Chunking PendTok.
 Open Scope N_scope.
 
 (* a receiver of the same size that reproduces Pr: fresh parser fed Pr.state_formatted() *)
@@ -80,10 +81,11 @@ Proof.
 Qed.
 
 (* ---- equal observations: the diff is empty and the receiver is left alone ---- *)
-Lemma process_nil r : partial (vt r) = [] -> process r [] = Ok r.
+Lemma process_nil r : partial (vt r) = [] -> pend r = [] -> process r [] = Ok r.
 Proof.
-  intros E. unfold process, advance. rewrite E. cbn [length advance_loop perform_all bind].
-  rewrite app_nil_r. destruct r; reflexivity.
+  intros E Hp. rewrite (process_clean r [] Hp eq_refl). unfold advance. rewrite E.
+  cbn [length advance_loop perform_all bind].
+  rewrite app_nil_r. destruct r as [v s l rz pd]. cbn in Hp. subst pd. reflexivity.
 Qed.
 
 Lemma parser_new_vt rows cols cap rz p : parser_new rows cols cap rz = Ok p -> vt p = p_init.
@@ -94,10 +96,19 @@ Proof.
   intros HP E. unfold reproduce in E. binv E as r0 E0. binv E as ts Ets.
   destruct (reachable_tokens_ok Pr Pr 0 0 HP HP) as (_ & (ts' & Ets' & _ & Hre) & _).
   rewrite Ets in Ets'. inv Ets'.
-  pose proof (parser_new_vt _ _ _ _ _ E0) as Ev.
+  pose proof (parser_new_vt _ _ _ _ _ E0) as Ev. pose proof (parser_new_pend _ _ _ _ _ E0) as Epd.
   destruct (Hre (vt r0)) as (v' & _ & Hg & Hp); [rewrite Ev; apply ground_init|].
-  destruct r0 as [v0 s0 l0 z0]. cbn [vt] in *. rewrite Hp in E.
+  destruct r0 as [v0 s0 l0 z0 pd0]. cbn [vt pend] in *. subst pd0. rewrite Hp in E.
   binv E as pr Epr. destruct pr as [r' evs]. inv E. exact Hg.
+Qed.
+
+(* the receiver holds no bytes back: serialised tokens end in a complete character *)
+Lemma reproduce_pend Pr r : reachable Pr -> reproduce Pr = Ok r -> pend r = [].
+Proof.
+  intros HP E. unfold reproduce in E. binv E as r0 E0. binv E as ts Ets.
+  destruct (reachable_tokens_ok Pr Pr 0 0 HP HP) as (_ & (ts' & Ets' & Tok & _) & _).
+  rewrite Ets in Ets'. inv Ets'.
+  exact (process_ser_all_pend r0 ts' r (parser_new_pend _ _ _ _ _ E0) Tok E).
 Qed.
 
 Lemma diff_round_equal_obs Pr Sc o r : reachable Sc -> reachable Pr -> obs Sc = Ok o -> obs Pr = Ok o ->
@@ -106,7 +117,7 @@ Proof.
   intros HS HP ES EP Er. unfold diff_round. rewrite Er. cbn [bind].
   destruct (reachable_inv _ HS) as (KS & WS & _). destruct (reachable_inv _ HP) as (KP & _).
   destruct (ObsSpec.C19_obsdiff Sc Pr o KS WS KP ES EP) as (_ & -> & _). cbn [bind ser_all flat_map].
-  apply process_nil. apply (reproduce_ground Pr r HP Er).
+  apply process_nil; [apply (reproduce_ground Pr r HP Er)|exact (reproduce_pend Pr r HP Er)].
 Qed.
 
 (* ---- a non-trivial pair on which the round trip holds ---- *)
